@@ -11,9 +11,10 @@ pub mod snap;
 pub mod types;
 
 /// replay of the non-history modes (iterator scripts, crash points, ...)
-pub fn replay_other(mode: &str, rp: &serde_json::Value, a: &cli::Args, sink: &mut cli::Sink) -> i32 {
+pub fn replay_other(mode: &str, rp: &serde_json::Value, a: &cli::Args, sink: &mut cli::Sink, journal: &mut cli::Journal) -> i32 {
+    let _ = &journal;
     match mode {
-        "iters" => iters::replay(rp, a, sink),
+        "iters" => iters::replay(rp, a, sink, journal),
         _ => {
             eprintln!("replay: unknown mode {}", mode);
             2
